@@ -289,6 +289,12 @@ def run(ctx):
     stores = {}
     conditional = set()
     npx = _desugar(nps.node)   # `ph.type, ph.orient = a, b` split into single stores
+    try:
+        from sa.inline import expand as _exp132
+
+        npx = _exp132(prog, nps, local_only=True)     # a configuring helper (`cls._configure_ph(sp, ...)`) is read in place
+    except Exception:  # noqa: BLE001
+        npx = _desugar(nps.node)
     ph_names = {k for k, v in P_.value_aliases(npx).items() if isinstance(v, ast.Call) and isinstance(v.func, ast.Attribute)
                 and v.func.attr in ("get_or_add_ph", "_add_ph")}
     if not ph_names:
@@ -307,7 +313,9 @@ def run(ctx):
         p2 = flow2.get(p1) if p1 else None
         dst = stores.get(p2) if p2 else None
         key = "%s->ph.%s" % (src, attr)
-        if dst == attr:
+        if not stores and not conditional:
+            ctx.error(key, "no store into the new p:ph element recognised in new_placeholder_sp")
+        elif dst == attr:
             ctx.ok("R13.2", key, sample={"source": "sp." + src, "via": [p1, p2], "store": "ph.%s" % dst})
         elif attr in conditional:
             ctx.violation("R13.2", key, "ph.%s is stored only under a condition in new_placeholder_sp: for the other placeholder kinds "
